@@ -3,6 +3,7 @@
 set -u
 cd "$(dirname "$(readlink -f "$0")")/.."
 export CARGO_NET_OFFLINE=true
+ROOT="$(pwd)"
 mkdir -p build evidence
 python3 tools/extract.py > build/extract.json || echo "extract.py failed (continuing)"
 targets=""
@@ -16,7 +17,7 @@ for f in tools/props/C*.json; do
   b=$(python3 -c "import json; print(json.load(open('$f'))['gen_bin'])")
   bins="$bins --bin $b"
 done
-(cd harness && cargo build --release --offline $bins) || echo "cargo build reported errors"
+(cd harness && cargo build --release --offline $bins --target-dir "$ROOT/build/harness-target") || echo "cargo build reported errors"
 # /repo's own binaries used by some checks
 rb=$(python3 -c "
 import json,glob
@@ -25,6 +26,6 @@ for f in glob.glob('tools/props/C*.json'):
     s.update(json.load(open(f)).get('repo_bins',[]))
 print(' '.join('--bin '+b for b in sorted(s)))")
 if [ -n "$rb" ]; then
-  (cd /repo && cargo build --release --offline --features verif $rb --target-dir /verif/build/repo-target --config profile.release.lto=false --config profile.release.debug=false) || echo "repo bin build reported errors"
+  (cd /repo && cargo build --release --offline --features verif $rb --target-dir "$ROOT/build/repo-target" --config profile.release.lto=false --config profile.release.debug=false) || echo "repo bin build reported errors"
 fi
 echo "setup done"
